@@ -118,7 +118,7 @@ def wtype_obs(p, n, t):
 
 def quick_days():
     days = set()
-    for y0, y1 in ((1900, 1904), (1999, 2001), (2099, 2101), (9998, 9999), (2399, 2400)):
+    for y0, y1 in ((1900, 1904), (1969, 1971), (1999, 2001), (2037, 2039), (2099, 2101), (9998, 9999), (2399, 2400)):     # (1970 and 2038: where computer clocks start and wrap)
         a = (datetime.datetime(y0, 1, 1) - EPOCH).days
         b = (datetime.datetime(y1, 12, 31) - EPOCH).days
         days.update(range(a, b + 1))
